@@ -1,6 +1,7 @@
 package rt
 
 import (
+	"sort"
 	"bufio"
 	"bytes"
 	"context"
@@ -390,6 +391,10 @@ func (h *Hooks) Auth(ctx context.Context, kind string, creds []string, scheme an
 		if v, ok := ex.Case.Auth[ev.Scheme]; ok {
 			verdict = v
 		}
+		// a verdict scripted for this scheme under these required scopes only
+		if v, ok := ex.Case.Auth[AuthKey(ev.Scheme, ev.Required)]; ok {
+			verdict = v
+		}
 	}
 	ev.Verdict = verdict
 	if ex != nil {
@@ -409,6 +414,14 @@ func (h *Hooks) Auth(ctx context.Context, kind string, creds []string, scheme an
 		return ctx, &goa.ServiceError{Name: parts[2], ID: "authid", Message: "rejected by " + ev.Scheme}
 	}
 	return ctx, errors.New("rejected by " + ev.Scheme)
+}
+
+// AuthKey names a scripted verdict that applies to one scheme only when its callback
+// is invoked with exactly these required scopes.
+func AuthKey(scheme string, required []string) string {
+	r := append([]string(nil), required...)
+	sort.Strings(r)
+	return scheme + "|" + strings.Join(r, ",")
 }
 
 // Assign sets *dst from an untyped value (used by generated stubs).
